@@ -103,10 +103,10 @@ const PERMS4: &[[usize; 4]] = &[[0, 1, 2, 3], [3, 2, 1, 0], [1, 3, 0, 2], [2, 0,
 
 pub fn build(n: usize, edges: &[(usize, usize)], perm: &[usize; 4], wrap_of: &dyn Fn(usize) -> String, root_all: bool) -> TypeGraph {
     let names = ["Alpha", "Beta", "Gamma", "Delta", "Epsilon", "Zeta"];
-    let nodes: Vec<Node> = (0..n).map(|i| Node { name: names[if i < 4 { perm[i] % n.max(1) } else { i }].to_string(), is_enum: false, file: i % 2, serde: true }).collect();
+    let nodes: Vec<Node> = (0..n).map(|i| Node::new(names[if i < 4 { perm[i] % n.max(1) } else { i }].to_string(), false, i % 2, true)).collect();
     // names must be distinct: perm[i] % n can collide when n < 4; fall back to identity then
     let distinct: BTreeSet<&String> = nodes.iter().map(|x| &x.name).collect();
-    let nodes = if distinct.len() == n { nodes } else { (0..n).map(|i| Node { name: names[i].to_string(), is_enum: false, file: i % 2, serde: true }).collect() };
+    let nodes = if distinct.len() == n { nodes } else { (0..n).map(|i| Node::new(names[i].to_string(), false, i % 2, true)).collect() };
     let es: Vec<Edge> = edges.iter().enumerate().map(|(k, (a, b))| Edge { from: *a, to: *b, wrap: wrap_of(k) }).collect();
     // every node reachable from a command: sources (no incoming edge) become roots
     let mut roots = vec![];
